@@ -38,6 +38,7 @@ def patterns():
         'subscript': lambda: M.MSubscript(value=m(v=...), slice=m(s=...), ctx=Load),
         'ifexp': lambda: M.MIfExp(test=m(t=...), body=m(b=...), orelse=m(e=...)),
         'boolop2': lambda: M.MBoolOp(values=[m(a=...), m(b=...)]),
+        'call_a0': lambda: M.MCall(func=m(fn=...), _args=[m(a0=...), Q(rest=...)]),
         'add0': lambda: M.MBinOp(left=m(l=...), op=M.MAdd, right=M.MConstant(0)),
         'not_': lambda: M.MUnaryOp(op=M.MNot, operand=m(x=...)),
         'arguments': lambda: M.Marguments,
@@ -96,6 +97,15 @@ TEMPLATES = {
     'e_peel_v': '__FST_v',
     'e_peel_first': '__FST_first',
     'e_peel_a': '__FST_a',
+    'e_first_args': 'f(__FST_first, __FST_rest)',
+    'e_first_list': '[__FST_first, __FST_rest]',
+    'e_first_tuple': '(__FST_first, 0, __FST_rest)',
+    'e_a0_args': '__FST_fn(__FST_a0, __FST_rest)',
+    'e_a0_wrap': 'g(0, __FST_a0, __FST_rest)',
+    'e_a0_two': 'g(__FST_a0, __FST_a0, __FST_rest, k=1)',
+    's_for_chain': 'for __FST_t in chain(__FST_i, 0):\n    __FST_b',
+    's_if_check': 'if check(__FST_t, 1):\n    __FST_b',
+    's_if_list': 'if [__FST_t, 1]:\n    __FST_b\nelse:\n    __FST_e',
     'a_ident': '__FST_',
     'a_whole_z': '__FST_, z',
     'a_y_whole': 'y, __FST_',
@@ -160,6 +170,32 @@ if t2:
 if t5:
     if t6:
         z = 1
+'''
+
+# sequences (tuples, lists, sets) as FIRST elements / first arguments / loop iterables / tests: a node captured from
+# there and put into a list-field slot must stay one element
+SEQ_PROGRAM = '''\
+p1 = [(1, 2), a, b]
+p2 = [[c, d], e]
+p3 = [{f, g}, h, i]
+p4 = [(j,), k]
+p5 = [(), m, n]
+q1 = fa((1, 2), x, y)
+q2 = fb([u, v], w)
+q3 = fc((k1,), m1, n1)
+q4 = fd((o1, o2))
+q5 = fe([], z1, key=z2)
+for it in (1, 2, 3):
+    use(it)
+    more(it)
+for jt in [a1, b1]:
+    use(jt)
+if (t1, t2):
+    act()
+else:
+    other()
+while [c1, c2]:
+    step()
 '''
 
 # programs written for this check (added to the shared corpus): shapes that the slot classes above need in quantity
@@ -281,7 +317,7 @@ def plain_param_programs():
 
 def programs():
     from corpus.programs import PROGRAMS
-    return list(PROGRAMS) + EXTRA_PROGRAMS + [PEEL_PROGRAM]
+    return list(PROGRAMS) + EXTRA_PROGRAMS + [SEQ_PROGRAM, PEEL_PROGRAM]
 
 
 def template_tops(src: str, cat: str):
@@ -501,7 +537,7 @@ def run_case(rec: Recorder, tid: int, src: str, pat_id: str, tmpl_src: str, cat:
         pre = rec.state(f)
         mm = matched.match(pat)
         mf = match_facts(f, mm, try_parse(pre['_src'])) if mm is not None else {'p': _path(f, matched), 'caps': {}, 'ml': True}
-        cur['pre'] = (pre, mf, mm is not None, matched is cur['last'] and cfg['loop'] != 0)
+        cur['pre'] = (pre, mf, mm is not None, matched is cur['last'])
         return False
 
     def cba(replaced):
@@ -512,7 +548,7 @@ def run_case(rec: Recorder, tid: int, src: str, pat_id: str, tmpl_src: str, cat:
             still = replaced is not None and replaced.match(pat) is not None    # what subn() itself asks before looping
         except Exception:  # noqa: BLE001
             still = False
-        steps.append({'k': 'subst', 'still': still, 'pre': pre, 'm': jmatch(mf), 'matchedOk': ok, 'loopcont': loopcont,
+        steps.append({'k': 'subst', 'still': still, 'pre': pre, 'm': jmatch(mf), 'matchedOk': ok, 'same': loopcont,
                       'hasRef': has_ref, 'expValid': valid, 'expS': exp_s, 'post': post})
         cur['last'] = replaced
 
